@@ -156,7 +156,15 @@ def _full_peak(base, **kw):
     """
     g = base["grid"]
     v = _values(base, _times(g), _t0(g, dict(j=g["n"] // 2, f=0)), **kw)
-    return _peak(v)
+    peak = _peak(v)
+    if base["model"] == "ARZ" and g["n"] * 2.0 ** -g["k"] < 20e-9:
+        # a window shorter than ARZ's own +-10 ns evaluation span can sit on the zero crossing of
+        # the bipolar pulse even when centred (seen: 4 samples of 0.06 ns, peak 2.7e-26 of a pulse
+        # whose size is orders above): size of the whole pulse from 256 samples over +-15 ns
+        wide = dict(n=256, k=33, i0=-128)          # dt = 2^-33 s = 0.116 ns
+        v2 = _values(base, _times(wide), 0.0, **kw)
+        peak = max(peak, _peak(v2))
+    return peak
 
 
 def _close(a, b, tol, base, mult=1.0, **kw):
